@@ -37,6 +37,7 @@ fn main() {
             "C04" => framework::replay(&props::c04::C04, path, &st.verif_dir),
             "C14" => framework::replay(&props::c14::C14, path, &st.verif_dir),
             "C12" => framework::replay(&props::c12::C12, path, &st.verif_dir),
+            "C17" => framework::replay(&props::c17::C17, path, &st.verif_dir),
             _ => {
                 eprintln!("HARNESS-ERROR: unknown property {:?} in {}", id, path.display());
                 2
@@ -60,6 +61,7 @@ fn main() {
         "C04" => framework::run_check(&props::c04::C04, &st),
         "C14" => framework::run_check(&props::c14::C14, &st),
         "C12" => framework::run_check(&props::c12::C12, &st),
+        "C17" => framework::run_check(&props::c17::C17, &st),
         _ => usage(),
     };
     std::process::exit(code);
